@@ -1,6 +1,7 @@
 """C10 ECDH is symmetric and exact; key objects only ever hold valid keys."""
 import os
 from .common import Check, load_prog, load_globals, new_machine, tm, X, MOD, N_ORDER, sym_bytes, cat_bytes, cat_limbs
+from .schnorr_common import snapshot, unchanged
 from . import models, stubs, toy as T
 from .c07 import TOYS_QUICK, TOYS_THOROUGH
 
@@ -33,9 +34,11 @@ def main():
                     ctx.assume(tm.band(tm.bnot(tm.eq(v, 0, W)), tm.ult(v, toy.n, W)))
                 ka, kb = T.new_private_key(m, a), T.new_private_key(m, b)
                 pa, pb = T.fld(m, ka, T.PRIV_T, 'publicKey'), T.fld(m, kb, T.PRIV_T, 'publicKey')
+                snap = snapshot(m, [ka, kb])
                 s1, e1 = m.call(SK + 'ECDH', [ka, pb])
                 s2, e2 = m.call(SK + 'ECDH', [kb, pa])
                 sub.note_machine(m)
+                ctx.check(unchanged(m, snap), 'bv:key-objects-unchanged-by-ECDH')
                 ctx.check(e1 is None and e2 is None, 'never-fails-for-valid-keys')
                 if e1 is None and e2 is None:
                     ab = toy.muln(a, b)
